@@ -1,4 +1,5 @@
 import Martian.Model.MessageView
+import Martian.Drv.GoLib
 /-! Driver for C15: `snap`, `sections`, `decode`, `twin` (see go/internal/c15). -/
 namespace Martian.Drv.C15
 open Martian Martian.Go Martian.MessageView
@@ -115,6 +116,16 @@ def step (s : St) (toks : List String) : St × String :=
       (s, (if r.msg == m then "same" else "differs") ++ " rec=" ++ (if r.record.isSome then "1" else "0")
             ++ " err=" ++ (if r.err then "1" else "0"))
     | _, _, _ => (s, "bad-op")
-  | _ => (s, "bad-op")
+  | ["h1.resnap"] =>
+    -- the snapshot bytes through the modelled HTTP/1 reader (responses: to a GET)
+    match s with
+    | some (v, m) =>
+      (s, Martian.Drv.Http1.showR (if m.isReq then Martian.Http1.readRequest v.message
+                                    else Martian.Http1.readResponse (strBytes "GET") v.message))
+    | none => (s, "no-snapshot")
+  | _ =>
+    match Martian.Drv.GoLib.step toks with
+    | some o => (s, o)
+    | none => (s, "bad-op")
 
 end Martian.Drv.C15
